@@ -128,22 +128,33 @@ def run_case(case):
     tree = build(case["tree"], scale)
     before = dump(tree, scale)
     nwk_before = tree.get_newick(with_distances=True, with_node_names=True)
-    try:
-        kind, r = apply_op(tree, case["op"], scale)
-    except Exception as e:  # noqa: BLE001
-        after = dump(tree, scale)
-        return {"res": {"exc": exc_code(e)}, "msg": f"{type(e).__name__}: {str(e)[:120]}", "mut": before != after}
+    cur = tree
+    inplace_on_orig = False
+    kind, r = "tree", tree
+    out = {}
+    for k, op in enumerate(case["ops"]):
+        if op["op"] == "prune" and cur is tree:
+            inplace_on_orig = True
+        try:
+            kind, r = apply_op(cur, op, scale)
+        except Exception as e:  # noqa: BLE001
+            after = dump(tree, scale)
+            return {"res": {"exc": exc_code(e)}, "msg": f"{type(e).__name__}: {str(e)[:120]}", "at": k,
+                    "mut": before != after, "inplace_on_orig": inplace_on_orig}
+        if kind == "tree":
+            cur = r
     after = dump(tree, scale)
     mut = before != after or nwk_before != tree.get_newick(with_distances=True, with_node_names=True)
+    out = {"mut": mut, "inplace_on_orig": inplace_on_orig}
     if kind == "text":
-        return {"text": r, "mut": mut}
+        out["text"] = r
+        return out
     if kind == "val":
-        return {"val": r, "mut": mut}
-    # lengths produced by the parser are floats; scale them back
-    rscale = scale
-    out = {"res": dump(r, rscale), "mut": mut}
+        out["val"] = r
+        return out
+    out["res"] = dump(r, scale)
     try:
-        out["dists"] = dists(r, rscale)
+        out["dists"] = dists(r, scale)
     except Exception as e:  # noqa: BLE001
         out["dists"] = {"exc": exc_code(e)}
     out["tips"] = r.get_tip_names()
